@@ -649,9 +649,9 @@ func (x *Exec) fmtArg(v Value, verb byte) string {
 var errorIface = types.Universe.Lookup("error").Type().Underlying().(*types.Interface)
 
 // formatArgs renders a printf-style format; returns text and the %w operand (if any).
-func (x *Exec) formatArgs(format string, args []Value) (string, *Iface) {
+func (x *Exec) formatArgs(format string, args []Value) (string, []Iface) {
 	var sb strings.Builder
-	var wrapped *Iface
+	var wrapped []Iface
 	ai := 0
 	for i := 0; i < len(format); i++ {
 		ch := format[i]
@@ -679,9 +679,8 @@ func (x *Exec) formatArgs(format string, args []Value) (string, *Iface) {
 		arg := args[ai]
 		ai++
 		if verb == 'w' {
-			if iv, ok := arg.(Iface); ok {
-				cp := iv
-				wrapped = &cp
+			if iv, ok := arg.(Iface); ok && iv.T != nil {
+				wrapped = append(wrapped, iv)
 			}
 		}
 		sb.WriteString(x.fmtArg(arg, verb))
@@ -726,11 +725,24 @@ func nErrorf(x *Exec, t *Thread, a []Value, c *callCtx) (Value, nativeStatus) {
 		format = x.strDisplay(a[0].(Str))
 	}
 	msg, wrapped := x.formatArgs(format, x.sliceValues(a[1]))
-	if wrapped != nil && wrapped.T != nil {
+	if len(wrapped) == 1 {
 		tt := x.namedType("fmt", "wrapError")
 		cell := x.newCell(tt)
 		cell.Sub[0].V = Str{K: msg}
-		cell.Sub[1].V = *wrapped
+		cell.Sub[1].V = wrapped[0]
+		return Iface{T: types.NewPointer(tt), V: Ptr{C: cell}}, nDone
+	}
+	if len(wrapped) > 1 {
+		// several %w verbs: *fmt.wrapErrors{msg, errs}
+		tt := x.namedType("fmt", "wrapErrors")
+		cell := x.newCell(tt)
+		cell.Sub[0].V = Str{K: msg}
+		et := types.Universe.Lookup("error").Type()
+		arr := x.newArrayCell(et, len(wrapped))
+		for i, w := range wrapped {
+			arr.Sub[i].V = w
+		}
+		cell.Sub[1].V = Slice{Arr: arr, Len: len(wrapped), Cap: len(wrapped), Elem: et}
 		return Iface{T: types.NewPointer(tt), V: Ptr{C: cell}}, nDone
 	}
 	return x.newErrorString(msg), nDone
